@@ -1,10 +1,12 @@
 """C21 — strided-interval transfer functions are sound.
 prove (Lean, all widths) -> correspondence (Lean model vs real code, exact tuples) -> oracle on the real code
-(member enumeration; exhaustive at small widths, boundary-biased samples at 5..64 bits)."""
+(member enumeration; exhaustive at small widths, boundary-biased samples at 5..64 bits) -> name stream
+(lib/vsa_names.py: results compared with their own operands, f(x) cmp x, operands correlated through the shared object)."""
 import logging
 
 from lib import vsa
 from lib import vsa_check as vc
+from lib import vsa_names as vn
 
 PROP = "C21"
 THEOREMS = vc.THEOREMS_C21
@@ -75,8 +77,12 @@ def gen_cases(ctx):
 def run(ctx):
     logging.disable(logging.CRITICAL)
     vc.run_family(ctx, PROP, gen_cases(ctx), THEOREMS, TESTS)
+    # the name / identity dimension: y = f(x, ..) derived from ONE named interval x, then y cmp x for all ten comparisons
+    vn.run_stream(ctx, PROP)
 
 
 def replay(ctx, obj):
     logging.disable(logging.CRITICAL)
+    if obj["replay"].get("name_case"):
+        return vn.replay_name_case(ctx, PROP, obj)
     return vc.replay_case(ctx, PROP, obj)
